@@ -178,8 +178,8 @@ theorem nearest_mem (round32 : α → α) (g : AggGraph α) (node : Nat) :
           · simp only [pure, Except.pure, Except.ok.injEq] at hacc'
             subst hacc'; exact Or.inr h1
 
-theorem chainStep_pinv {n : Nat} (round32 : α → α) {st st1 : PState α} {L : Dict Nat}
-    (h : PInv n st.g st.rows st.comps L) (hs : chainStep round32 st = .ok (some st1)) :
+theorem chainStep_pinv {n : Nat} (round32 : α → α) (n0 : Nat) {st st1 : PState α} {L : Dict Nat}
+    (h : PInv n st.g st.rows st.comps L) (hs : chainStep round32 n0 st = .ok (some st1)) :
     ∃ L', PInv n st1.g st1.rows st1.comps L' := by
   obtain ⟨g, chain, rows, comps⟩ := st
   unfold chainStep at hs
@@ -222,7 +222,7 @@ theorem chainStep_pinv {n : Nat} (round32 : α → α) {st st1 : PState α} {L :
           · simp only [Except.ok.injEq, Option.some.injEq] at hs; subst hs; exact ⟨L, h⟩
         · cases hs
 
-theorem chainStep_done (round32 : α → α) {st : PState α} (hs : chainStep round32 st = .ok none) :
+theorem chainStep_done (round32 : α → α) (n0 : Nat) {st : PState α} (hs : chainStep round32 n0 st = .ok none) :
     st.g.sizes = [] := by
   obtain ⟨g, chain, rows, comps⟩ := st
   unfold chainStep at hs
@@ -246,8 +246,8 @@ theorem chainStep_done (round32 : α → α) {st : PState α} (hs : chainStep ro
           · cases hs
         · cases hs
 
-theorem chainLoop_pinv {n : Nat} (round32 : α → α) : ∀ (fuel : Nat) (st st' : PState α) (L : Dict Nat),
-    PInv n st.g st.rows st.comps L → chainLoop round32 fuel st = .ok (some st') →
+theorem chainLoop_pinv {n : Nat} (round32 : α → α) (n0 : Nat) : ∀ (fuel : Nat) (st st' : PState α) (L : Dict Nat),
+    PInv n st.g st.rows st.comps L → chainLoop round32 n0 fuel st = .ok (some st') →
     ∃ L', PInv n st'.g st'.rows st'.comps L' ∧ st'.g.sizes = [] := by
   intro fuel
   induction fuel with
@@ -260,9 +260,9 @@ theorem chainLoop_pinv {n : Nat} (round32 : α → α) : ∀ (fuel : Nat) (st st
     · rename_i hstep
       simp only [Except.ok.injEq, Option.some.injEq] at h
       subst h
-      exact ⟨L, hinv, chainStep_done round32 hstep⟩
+      exact ⟨L, hinv, chainStep_done round32 n0 hstep⟩
     · rename_i st1 hstep
-      obtain ⟨L1, h1⟩ := chainStep_pinv round32 hinv hstep
+      obtain ⟨L1, h1⟩ := chainStep_pinv round32 n0 hinv hstep
       exact ih st1 st' L1 h1 h
 
 end
